@@ -39,6 +39,15 @@ def v2_overrides():
     return ov
 
 
+def v3_overrides():
+    ov = {}
+    for i in range(1, N_PAGES, 3):
+        ov["P%d" % i] = {"namespace_id": 0, "body": "v3 THIRD body %d" % i}
+    ov["Template:T"] = {"namespace_id": 10, "body": "v3 template"}
+    ov["Extra3"] = {"namespace_id": 0, "body": "v3 extra page"}
+    return ov
+
+
 def v2_pages(big=False):
     p = dict(v1_pages(big))
     for t, d in v2_overrides().items():
@@ -106,6 +115,15 @@ def life(d, variant, flow, kill_at, big, ready_path=None):
 
         if flow == "backup":
             dumpparser.analyze_and_overwrite_pages(ctx, [Path(ovf)], True, None)
+        elif flow == "double-backup":
+            # a second override round on the same context: the second backup
+            # (content v2) supersedes the first (content v1)
+            dumpparser.analyze_and_overwrite_pages(ctx, [Path(ovf)], True, None)
+            ovf3 = os.path.join(d, "overrides3.json")
+            with open(ovf3, "w") as f:
+                json.dump(v3_overrides(), f)
+            dumpparser.analyze_and_overwrite_pages(ctx, [Path(ovf3)], True,
+                                                   None)
         else:
             dumpparser.analyze_and_overwrite_pages(ctx, [Path(ovf)], False, None)
         ctx.close_db_conn()
@@ -139,7 +157,8 @@ def verify(d):
     from wikitextprocessor import Wtp
 
     db = os.path.join(d, "pages.db")
-    files = sorted(x for x in os.listdir(d) if x != "ready.marker")
+    files = sorted(x for x in os.listdir(d)
+                   if x not in ("ready.marker", "overrides3.json"))
     ctx = Wtp(db_path=db, quiet=True, quiet_output=True)
     try:
         integ = [r[0] for r in ctx.db_conn.execute("PRAGMA integrity_check")]
@@ -173,6 +192,21 @@ def commit_event_of(events):
     return cands[-1] if cands else len(events)
 
 
+def second_backup_event(events):
+    """1-based index of the line event at which the second backup_db call of
+    the double-backup flow moves its finished copy into place (located
+    through the source text: the last line of backup_db)."""
+    import inspect
+
+    from wikitextprocessor import Wtp
+
+    src, first = inspect.getsourcelines(Wtp.backup_db)
+    last_line = first + max(i for i, l in enumerate(src) if l.strip())
+    idx = [i for i, (fn, ln) in enumerate(events, 1)
+           if fn == "backup_db" and ln == last_line]
+    return idx[-1] if len(idx) >= 2 else len(events)
+
+
 def classify(pages_list, big):
     pages = dict((tuple(k), v) for k, v in pages_list)
     if pages == v1_pages(big):
@@ -198,6 +232,10 @@ def one_point(args):
         # died with 99 = killed at the point; ok = ran to completion
         expected = "v1"
         if flow == "plain" and (k is None or k > commit_event):
+            expected = "v2"
+        if flow == "double-backup" and (k is None or k > commit_event):
+            # commit_event is here the event at which the SECOND backup
+            # becomes the backup in force (its move into place)
             expected = "v2"
         sub = 0
         if level2:
@@ -298,7 +336,7 @@ def run(run):
     jobs = []
     plan = {}
     for variant in ("checkpointed", "pending-wal"):
-        for flow in ("backup", "plain"):
+        for flow in ("backup", "plain", "double-backup"):
             d = tempfile.mkdtemp(prefix="verif-c11-")
             try:
                 st, events, _ = par.fork_child(life, (d, variant, flow, None,
@@ -308,7 +346,9 @@ def run(run):
             if st != "ok":
                 raise RuntimeError(f"dry run failed: {st} {events!r}")
             n = len(events)
-            commit_event = commit_event_of(events)
+            commit_event = (second_backup_event(events)
+                            if flow == "double-backup"
+                            else commit_event_of(events))
             plan[(variant, flow)] = {"events": n, "commit_event": commit_event}
             pts = list(range(1, n + 1))
             if quick:
@@ -385,7 +425,9 @@ def run(run):
         "reopened so the WAL is checkpointed / committed frames still pending "
         "in the WAL), then the real dumpparser.analyze_and_overwrite_pages "
         "with skip_extract_dump=True (backup, then overwrite 27 pages to v2 + "
-        "commit) or False (no backup), close_db_conn, reopen (restore), read. "
+        "commit) or False (no backup), or twice in a row with backup (second "
+        "backup of content v2, then overwrite to v3), close_db_conn, reopen "
+        "(restore), read. "
         "The child runs under a line tracer restricted to create_db, "
         "backup_db, close_db_conn, add_page, backup_db_path, overwrite_pages, "
         "overwrite_single_page, analyze_and_overwrite_pages and os._exit()s "
@@ -399,7 +441,9 @@ def run(run):
         "opening the path: no exception, PRAGMA integrity_check = ok, and the "
         "page map equals v1 whenever a backup flow is used (the backup is "
         "taken before any v2 write), and the last committed map (v1 before / "
-        "v2 after the overwrite's commit line) without backup. Non-trivial = "
+        "v2 after the overwrite's commit line) without backup; with two "
+        "backups v1 until the second backup is moved into place and v2 from "
+        "then on. Non-trivial = "
         "kill points after the first traced line."
     )
     run.assumptions = [
@@ -421,7 +465,8 @@ def replay(run, case):
                                        timeout=120)
     finally:
         shutil.rmtree(d, ignore_errors=True)
-    ce = commit_event_of(events)
+    ce = (second_backup_event(events) if flow == "double-backup"
+          else commit_event_of(events))
     if isinstance(k, str):
         viols, _ = sigkill_point((variant, int(k.split("@")[1][:-2])))
     else:
